@@ -507,15 +507,19 @@ def numRequiredTransitionValidators (c : BatchConfig) : Nat :=
     let defenders := n - (n + 2) / 3 + 1
     if defenders ≤ c.threshold then c.threshold else defenders
 
+/-- number of keypers of `allowance` that reported a main-chain block at or past `c`'s activation -/
+def seenVotes (app : App) (allowance c : BatchConfig) : Nat :=
+  (allowance.keypers.filter (fun k =>
+      match app.blocksSeen.get? k with
+      | some b => decide (c.activation ≤ b)
+      | none => false)).length
+
 /-- one iteration of the loop in `EndBlock` for the config at position `i`;
     `configs` is the (already partly updated) list, as the Go loop mutates in place. -/
 def endBlockStep (app : App) (configs : List BatchConfig) (i : Nat) (c : BatchConfig) :
     BatchConfig × List Event :=
   let allowance := configs.getD (i - 1) default
-  let votes := (allowance.keypers.filter (fun k =>
-      match app.blocksSeen.get? k with
-      | some b => decide (c.activation ≤ b)
-      | none => false)).length
+  let votes := app.seenVotes allowance c
   let (c, evs) :=
     if !c.started && decide (allowance.threshold ≤ votes) then
       ({ c with started := true }, [Event.batchConfigStarted c.index])
